@@ -51,6 +51,9 @@ class StrDom(LinDom):
         if name == 'strlen':
             n = self.fresh('len', nonnegative=True)
             self.facts.append(fm.le(n, MAXP))
+            if not hasattr(self, 'strlen_of'):
+                self.strlen_of = {}
+            self.strlen_of[n] = args[0]
             return n
         if name == 'a_utf_encode':
             n = self.fresh('enc', nonnegative=True)
@@ -165,6 +168,11 @@ def analyse(ctx, fn, m, hdr, off, names, rep):
         C06_content.check(fn, name, dom, leaves, facts0, off, rep)
     except Unsupported as e:
         rep.unk('K2', name, str(e), loc=loc)
+    if name in ('a_str_rtrim_', 'a_str_ltrim_'):
+        try:
+            C06_content.trim_steps(fn, name, dom, leaves, loop_leaves, off, rep)
+        except Unsupported as e:
+            rep.unk('K3', name, str(e), loc=loc)
     nob = 0
     viol, unk = [], []
     for lf in leaves + loop_leaves:
@@ -362,6 +370,36 @@ def compare_rule(ctx, m, rep):
         rep.unk('K1', 'a_str_cmp_', str(e))
 
 
+def trim_wrappers(m, rep):
+    """K4: the trim variants are built from the two loops decided by K3 - each forwards its own (ctx, s, n) to the documented pieces"""
+    import effects
+    want = {'a_str_rtrim': ['a_str_rtrim_'], 'a_str_ltrim': ['a_str_ltrim_'], 'a_str_trim_': ['a_str_ltrim_', 'a_str_rtrim_'], 'a_str_trim': ['a_str_trim_']}
+    for name, callees in want.items():
+        f = m.functions.get(name)
+        if f is None or f.error:
+            rep.unk('K4', name, 'anchor vanished')
+            continue
+        loc = f.loc(f.entry.instrs[0])
+        params = [pn for (_, pn) in f.params]
+        got, probs = [], []
+        for i in f.instrs():
+            if i.op != 'call':
+                continue
+            cn = effects.callee_name(i) or ''
+            if 'trim' not in cn:
+                continue
+            got.append(cn)
+            ops = [o.v if o.k == 'reg' else None for o in i.ops[:3]]
+            if ops != params[:3]:
+                probs.append('%s is called with %s, expected the own arguments (ctx, s, n)' % (cn, ops))
+        if sorted(got) != sorted(callees):
+            probs.append('calls %s, expected %s' % (sorted(got), sorted(callees)))
+        if probs:
+            rep.bad('K4', name, '; '.join(probs), loc=loc, key='%s: trim pieces' % name)
+        else:
+            rep.ok('K4', name, 'forwards (ctx, s, n) to %s' % ' and '.join(callees), loc=loc)
+
+
 def run(ctx):
     rep = ctx.rep
     rep.explanation = ('LIN analysis of every function of str.c and the inline accessors (fields, lengths and counts symbolic over their full '
@@ -371,7 +409,7 @@ def run(ctx):
                        'protocol; the comparison is memcmp over the common prefix, then length')
     rep.trusted += ['lib/lin.py, lib/fm.py', 'libc contracts: vsnprintf writes at most size bytes, returns res >= 0 (formatter errors are not modelled) and, for res < size, a NUL at buf[res]; strlen <= PTRDIFF_MAX']
     rep.assumptions += ['representation invariant at entry: num_ <= mem_, the block holds mem_ bytes', 'a_str_setn_ receives num <= mem_ (documented: length must be less than memory)',
-                        'source blocks hold the stated number of bytes', 'NOT decided: content equality with an abstract byte string, what the C formatter writes, the trim loops (pruned paths are counted in the evidence)']
+                        'source blocks hold the stated number of bytes', 'NOT decided: what the C formatter writes (libc contract), contents for setn']
     m = ctx.module('str')
     hdr = ctx.module('hdr_unit')
     md = dwarf.MD(m)
@@ -402,6 +440,7 @@ def run(ctx):
     par.fan_out(rep, [f.name for f in todo], one)
     catv_protocol(ctx, m, off, names, rep)
     compare_rule(ctx, m, rep)
+    trim_wrappers(m, rep)
     import stale
     pidx = stale.field_index(m, 'a_str', 'ptr_')
     for f in fns:
@@ -410,6 +449,8 @@ def run(ctx):
         stale.check(rep, 'N3', f, pidx, {'a_str_setm', 'a_str_setm_'})
     rep.floor('N3', 2)
     rep.floor('K2', 8)
+    rep.floor('K3', 2)
+    rep.floor('K4', 4)
     rep.floor('B2', 30)
     rep.floor('V1', 1)
     rep.floor('K1', 1)
